@@ -2677,7 +2677,9 @@ class BaseInterpreter(Generic[TContext, TEvent]):
         # For any self-transition, the domain is the parent. This forces an
         # exit/re-entry cycle for the source state.
         if target_state == transition.source:
-            return parent
+            # 🌳 The root has no parent: `None` (not the root itself) makes it
+            #    its own entry path so it is exited and re-entered too.
+            return transition.source.parent
 
         # Standard case: Compute the Least Common Compound Ancestor (LCCA).
         source_ancestors = self._get_ancestors(transition.source)
@@ -2698,8 +2700,13 @@ class BaseInterpreter(Generic[TContext, TEvent]):
         # re-entered the targeted region. The siblings were exited and never
         # restored, permanently killing them. The parent is the correct domain:
         # it exits and re-enters exactly the target subtree.
+        #
+        # 🌳 When the target is the machine root there is no parent: return
+        # `None` ("the whole machine") so the root is part of the entry path.
+        # Falling back to the root itself exited every state and entered
+        # nothing, leaving only the root active.
         if target_state in source_ancestors:
-            return target_state.parent or self.machine
+            return target_state.parent
 
         if not common_ancestors:
             # Fallback to parent (or machine root) if no commonality is found.
